@@ -10,6 +10,22 @@ CHECKS = {
    text="For every byte string up to the stated length (all 256 byte values at every position) the real normalizePath / decodeArgAppendNoPlus / CleanPath, executed symbolically from go/ssa, satisfy the containment predicate and equal an independent decode-then-stack reference; z3 finds no counterexample within the bound. Bounded model checking, not a proof: longer inputs are outside the claim.",
    note="trusted: go/ssa lowering, the engine's instruction semantics (counterexamples must replay natively), z3 4.8.12, the 40-line reference in the harness; bounds: quick N<=6/7/5 bytes, thorough 9/10/7",
    ref="DESIGN.md §4 C07"),
+ "C08": dict(
+   text="The byte-range arithmetic of the static file handler: the real ParseByteRange (with ParseUint/ParseUintBuf) is executed symbolically for every range text up to N bytes (all byte values) against every non-negative 64-bit content length; z3 shows err==nil iff RFC 7233 says satisfiable, 0<=start<=end<len, and equality with a reference resolver. The file system, cache, compression and HEAD/GET plumbing are outside what this technique reaches and are not claimed.",
+   note="narrowed claim: range arithmetic only (DESIGN.md §4 C08); trusted: reference resolver in harness/pkg/app/c08.go; bounds quick N<=5/8, thorough 9/10",
+   ref="DESIGN.md §4 C08"),
+ "C03": dict(
+   text="No-panic for the exported parsers of untrusted data (URI.Parse, Args.ParseBytes, Cookie.ParseBytes incl. attribute switch, request cookies, Trailer.SetTrailers, multipart boundary, ParseUint) on fully symbolic input up to the stated lengths: every Go run-time check (index, slice bounds, nil deref, division) on every path is an implicit assertion discharged by z3. Server read-path clauses (clean 4xx, no handler, Connection: close) are covered by the Serve harnesses when listed in evidence.",
+   note="time.Parse is an opaque nondeterministic stub; multipart body parsing and date parsing are outside; bounds per harness in evidence",
+   ref="DESIGN.md §4 C03"),
+ "C05": dict(
+   text="For each listed header-writing entry point of RequestHeader, ResponseHeader, Cookie and Trailer, with every byte value at every position of key/value within the bounds, the serialised header block read back by a strict line reader has no bare CR/LF, no more lines than the same call with a harmless value, and only token-named lines; plus the appendHeaderLine choke-point lemma.",
+   note="entry points are hand-listed in harness/pkg/protocol/c05.go; request method/target are not in the property's list; bounds quick key<=2 value<=3 bytes",
+   ref="DESIGN.md §4 C05"),
+ "C17": dict(
+   text="Round-trip of the query-argument and path codecs on every byte string within the bound, agreement of decodeArgAppend with a reference implementing net/url.QueryUnescape's rule on every accepted string, ordered two-pair argument list parse(print)=id and print fixed point, and response-cookie ParseBytes(AppendBytes)=id over all attribute combinations; all decided by z3 on the SSA-derived encoding.",
+   note="cookie expires/time formatting excluded; max-age over 5 representative values; URI FullURI fixed point not yet covered; bounds in evidence",
+   ref="DESIGN.md §4 C17"),
 }
 
 NOT_APPLICABLE = {
